@@ -150,10 +150,55 @@ pub fn case_for(ctx_seed: u64, tier: Tier, run: u64) -> SessionCase {
     gen_session_case(&mut rng, curve, &kn)
 }
 
+/// Schedule leg: two live sessions whose API calls are interleaved by the
+/// seeded scheduler must produce exactly the proofs they produce alone.
+pub fn run_interleaved<G: AffineRepr>(run: u64, a: &SessionCase, b: &SessionCase, sched_seed: u64, st: &mut Stats) {
+    st.eval();
+    let solo = |c: &SessionCase| -> Result<Vec<u8>, String> { prove_case::<G>(c, false).map(|(p, _)| p.bytes) };
+    let (sa, sb) = (solo(a), solo(b));
+    let (bpa, bpb) = (gens_with_history::<G>(&a.cap_p, parties_for(&a.cap_p)), gens_with_history::<G>(&b.cap_p, parties_for(&b.cap_p)));
+    let r = run_two_provers_interleaved::<G>((&a.st, &bpa, a.ext_seed), (&b.st, &bpb, b.ext_seed), sched_seed);
+    let viol = |st: &mut Stats, detail: String| {
+        st.violate(Violation {
+            run,
+            oracle: "interleaving-independent".into(),
+            signature: format!("interleaving:{}", a.st.curve.name()),
+            detail,
+            case: serde_json::json!({"interleaved": [a, b], "sched_seed": sched_seed}),
+        });
+    };
+    match r {
+        Err(m) => viol(st, format!("interleaved sessions panicked: {}", m)),
+        Ok((ra, rb, sched)) => {
+            st.steps += sched.len() as u64;
+            let same = |x: &Result<Vec<u8>, String>, y: &Result<Vec<u8>, String>| match (x, y) {
+                (Ok(p), Ok(q)) => p == q,
+                (Err(_), Err(_)) => true,
+                _ => false,
+            };
+            if !same(&ra, &sa) || !same(&rb, &sb) {
+                viol(st, format!("schedule {}: a session's proof differs from the proof the same session produces alone", sched));
+                return;
+            }
+            st.probe("interleaved-sessions-equal-solo");
+            st.distinct(&format!("sched|{}|{}|{}", a.st.shape(), b.st.shape(), sched));
+            st.log_digest(run, sched.as_bytes());
+        }
+    }
+}
+
 pub fn run(ctx: &Ctx) -> i32 {
     let n = cases(ctx);
     let stats = par_run(n, ctx.workers, |i, st| {
         let case = case_for(ctx.seed, ctx.tier, i);
+        if i % 10 == 9 {
+            // schedule leg: this session interleaved with the previous one (same curve: i-3)
+            let other = case_for(ctx.seed, ctx.tier, i.saturating_sub(3));
+            if other.st.curve == case.st.curve {
+                with_curve!(case.st.curve, G, run_interleaved::<G>(i, &case, &other, derive_seed(ctx.seed, "C01", i, "schedule"), st));
+                return;
+            }
+        }
         with_curve!(case.st.curve, G, run_case::<G>(i, &case, st));
     });
     finish(
@@ -165,13 +210,20 @@ pub fn run(ctx: &Ctx) -> i32 {
             exhaustive: false,
             assumptions: base_assumptions(),
             real_components: REAL.to_vec(),
-            simulated_components: vec!["program generator", "RefCS model (satisfaction oracle)", "byte channel (fault-free in this check)", "external RNG (seeded ChaCha)"],
+            simulated_components: vec!["program generator", "RefCS model (satisfaction oracle)", "byte channel (fault-free in this check)", "external RNG (seeded ChaCha)", "seeded scheduler interleaving the API calls of two live sessions (1 in 10 runs)"],
             extra: json!({"fault_free_configuration": true}),
         },
     )
 }
 
 pub fn replay(case: &Value) -> Vec<Violation> {
+    if let Some(arr) = case.get("interleaved").and_then(|a| a.as_array()) {
+        let a: SessionCase = serde_json::from_value(arr[0].clone()).expect("case json");
+        let b: SessionCase = serde_json::from_value(arr[1].clone()).expect("case json");
+        let mut st = Stats::default();
+        with_curve!(a.st.curve, G, run_interleaved::<G>(0, &a, &b, case["sched_seed"].as_u64().unwrap_or(0), &mut st));
+        return st.violations;
+    }
     let case: SessionCase = serde_json::from_value(case.clone()).expect("case json");
     let mut st = Stats::default();
     with_curve!(case.st.curve, G, run_case::<G>(0, &case, &mut st));
